@@ -118,6 +118,25 @@ pub fn search(suite: &str, a: &[&str]) -> Option<String> {
                 let dx = r.top_left.x + br.x - 2 * c.x; let dy = r.top_left.y + br.y - 2 * c.y;
                 if !(0..=1).contains(&dx) || !(0..=1).contains(&dy) { return Some("FAIL center not midpoint".into()); }
             }
+            // the same queries through the TRAIT impls of the main crate (generic code sees these, not the inherent methods)
+            {
+                use embedded_graphics::primitives::{ContainsPoint, OffsetOutline, PointsIter};
+                use embedded_graphics::transform::Transform;
+                for p in win.points() {
+                    if ContainsPoint::contains(&r, p) != in_set(&r, p) { return Some(format!("FAIL ContainsPoint::contains at {:?}", p)); }
+                }
+                let tp: Vec<Point> = PointsIter::points(&r).collect();
+                if tp != got { return Some("FAIL PointsIter::points differs from Rectangle::points".into()); }
+                if Dimensions::bounding_box(&r) != r { return Some("FAIL Dimensions::bounding_box".into()); }
+                for n in [-3, -1, 0, 1, 2] {
+                    if OffsetOutline::offset(&r, n) != r.offset(n) { return Some(format!("FAIL OffsetOutline::offset({}) differs from Rectangle::offset", n)); }
+                }
+                let d = Point::new(7, -5);
+                let t = Transform::translate(&r, d);
+                let mut t2 = r;
+                Transform::translate_mut(&mut t2, d);
+                if t.top_left != r.top_left + d || t.size != r.size || t2 != t { return Some("FAIL Transform::translate / translate_mut".into()); }
+            }
             format!("OK {}", got.len())
         }
         "p_rect_resized" => {
